@@ -423,7 +423,7 @@ func c11(c *wk.Ctx) {
 	r := c.R
 	log.SetLevel(log.LEVEL_NONE)
 	r.Rule = "digest: digest.New, in-repo crc64 and module crc64 vs a bitwise CRC-64/Jones on random strings x random chunkings (1-byte, empty writes, Reset); " +
-		"fault enumeration, exhaustive per artefact: every position x every one of the 255 substitute bytes and every truncation of generated RDB files (<=300 bytes, versions 1-9) through Header..Footer, and of DUMP payloads emitted by the tool's loader (<=200 bytes) through rdb.DecodeDump and CheckVersionChecksum; versions above the supported one with a recomputed valid CRC; concurrent stage: groups of 2-16 loaders parse their own intact generated files at the same time (as the tool does with several sources/input files) and every emitted payload's trailer must be the CRC-64 of its own bytes and every end-of-file check must pass. distinct = artefact shape classes"
+		"fault enumeration, exhaustive per artefact: every position x every one of the 255 substitute bytes and every truncation of generated RDB files (<=300 bytes, versions 1-9) through Header..Footer, and of DUMP payloads emitted by the tool's loader (<=200 bytes) through rdb.DecodeDump and CheckVersionChecksum; versions above the supported one with a recomputed valid CRC; concurrent stage: groups of 2-16 loaders parse their own intact generated files at the same time (as the tool does with several sources/input files) and every emitted payload's trailer (chunk records of a 42 MiB hash included, one file in every fourth group) must be the CRC-64 of its own bytes and every end-of-file check must pass. distinct = artefact shape classes"
 	r.Exhaustive = true
 	if msg := refcrc.SelfTest(); msg != "" {
 		r.Inconcl("refcrc self-test failed: " + msg)
@@ -534,6 +534,7 @@ func c11(c *wk.Ctx) {
 	})
 	r.Floor("concurrent_loader_groups", 20)
 	r.Floor("concurrent_payloads_checked", 3000)
+	r.Floor("chunk_record_payloads_checked", 9)
 	r.Floor("rdb_mutants", 200000)
 	r.Floor("payload_mutants", 200000)
 	r.Floor("rdb_intact_accepted", 8)
